@@ -8,8 +8,9 @@
 (* An adjacency object is [dom, e]: dom = keys that have a row (inner      *)
 (* map), e[a][b] = weight of the entry or 0.  The plain adjacency model    *)
 (* the property refers to is the projection Obs below.                     *)
-(* AddEdge* is enabled only when both endpoints are present (documented    *)
-(* precondition: the code would write into a nil inner map).               *)
+(* AddEdge* with an endpoint that is not in the graph does nothing (as     *)
+(* documented; before the repair of F20 the code wrote into a nil inner    *)
+(* map: a panic, after half of the edge had been written).                 *)
 (***************************************************************************)
 EXTENDS Naturals, Sequences, FiniteSets, TLC
 
@@ -43,8 +44,8 @@ AddV(i, k, ver, overwrite) ==
 CanAddE(i, a, b) == a \in adj[H(i).out].dom /\ b \in adj[H(i).inn].dom
 \* AddEdge / AddEdgeWeighted (103-116)
 AddE(i, a, b, w) ==
-  /\ CanAddE(i, a, b)
-  /\ adj' = IF H(i).out = H(i).inn
+  /\ adj' = IF ~CanAddE(i, a, b) THEN adj
+            ELSE IF H(i).out = H(i).inn
             THEN [adj EXCEPT ![H(i).out].e = [[@ EXCEPT ![a][b] = w] EXCEPT ![b][a] = w]]
             ELSE [adj EXCEPT ![H(i).out].e[a][b] = w, ![H(i).inn].e[b][a] = w]
   /\ UNCHANGED <<hash, handles>>
